@@ -1526,7 +1526,15 @@ class quantized_bits(base_quantizer.BaseQuantizer):  # pylint: disable=invalid-n
             # Since NumPy arrays are not directly JSON-serializable,
             # we convert them to lists.
             (self.post_training_scale.tolist() if self.post_training_scale is
-             not None else None)
+             not None else None),
+        "scale_axis":
+            self.scale_axis,
+        "elements_per_scale":
+            self.elements_per_scale,
+        "min_po2_exponent":
+            self.min_po2_exponent,
+        "max_po2_exponent":
+            self.max_po2_exponent,
     }
     return config
 
